@@ -64,7 +64,9 @@ def fill(P):
       "Kernel, tiebreak_set and the rounds of Plurality/Borda/rating/STV/RandomDictator are proved against their callees' contracts; whole elections are audited under 4 seeds (bounded).", "score_dict_to_ranking / tiebroken_ranking (sorted, dict of lists, slice stores) are assumed callee contracts; bounded only.", "DESIGN.md 4-C10, 8.2")
     P("C13", "other", "contract-based deductive verification of the alias constructors (delegation with the documented arguments, class defines nothing else) + bounded differential check against separately built components",
       "IRV/SNTV/SequentialRCV constructor delegation and class-frame obligations are discharged; TopTwo/Alaska composition is a bounded differential check.", "", "DESIGN.md 4-C13")
-    P("C14", "exploration", "bounded structural audit of every generator on a parameter grid", B, "apportionment package assumed to be Huntington-Hill (A-APP).", "DESIGN.md 4-C14")
+    P("C14", "other", "contract-based deductive verification of BallotGenerator.ballot_pool_to_profile (the generators' common last step: dict keyed by ranking tuples) + bounded structural audit of every generator on a parameter grid",
+      "ballot_pool_to_profile is proved for all pools: total weight = number of sampled ballots, given candidate list, untied rankings in tuple order; the samplers themselves (numpy / apportionment) are audited structurally on a parameter grid (bounded).",
+      "apportionment package assumed to be Huntington-Hill (A-APP).", "DESIGN.md 4-C14, 8.2")
     P("C15", "other", "contract-based deductive verification of PreferenceInterval (__init__, _normalize, _remove_zero_support_cands; floats read as reals with one rounding per operation) + bounded entry-by-entry comparison of the probability tables with the defining formulas in exact rationals",
       "The interval construction is proved for all support dicts: candidates = given names, zero_cands = support 0, stored interval = positive supports divided by their sum, ZeroDivisionError iff none is positive; "
       "combine_preference_intervals and the Bradley-Terry tables (itertools / numpy) are bounded only.", "floats compared up to 1e-9 relative in the bounded part; A-FLOAT in the proof part.", "DESIGN.md 4-C15, 8.2")
